@@ -214,6 +214,7 @@ class Out:
 
 
 # ------------------------------------------------------------------------------------------------ rewrites (DESIGN 2.2)
+NOTICES = []
 REWRITE_LOG = []
 
 
@@ -229,6 +230,10 @@ def generic_rewrites(t, fname):
     # R3: `bytes.as_ref()` on `&mut Bytes` -> explicit deref (avoids core's blanket AsRef for &mut T)
     t, n = re.subn(r'\bbytes\.as_ref\(\)', '(*bytes).as_ref()', t)
     rule('R3', fname, n)
+    # R10 (neon.rs only): block function called on the cursor's raw pointer -> one-line external_body wrapper taking the slice
+    # (Verus has no specification for `<[u8]>::as_ptr`; the wrapper's body is that very call, spec/neon_leaves.rs)
+    t, n = re.subn(r'\b(match_\w+_char_16_neon)\(\(\*bytes\)\.as_ref\(\)\.as_ptr\(\)\)', r'\1_at((*bytes).as_ref())', t)
+    rule('R10', fname, n)
     # R2: u64::from_ne_bytes / usize::from_ne_bytes -> one-line external_body wrappers
     t, n = re.subn(r'\bu64::from_ne_bytes\(', 'u64_from_ne_bytes(', t)
     rule('R2', fname, n)
@@ -380,21 +385,54 @@ def inject(spec, text, contract, warnings, vac=False):
             raise AnchorLost('%s: replace anchor %r found %d times, expected %d' % (fnm, r['old'], n, r['count']))
         body = re.sub(r['old'], lambda m_: r['new'], body, flags=re.S) if r.get('regex') else body.replace(r['old'], r['new'])
     blines = [(l, base) for l in body.split('\n')]
-    # loops
+    # loops.  A loop's annotation is anchored by the text of its header + ordinal.  When a header's text has changed but the
+    # function still has the same loops in the same order and of the same kind (label, loop/while/while let/for), the
+    # annotation is attached by kind and position instead (the invariants speak about the cursor and the oracle, not about the
+    # header's text); this is recorded as a notice, and the obligations are decided as usual.
+    def loop_kind(sig_):
+        mk = re.match(r"(?:('\w+):\s*)?(loop|while let|while|for)\b", sig_)
+        return (mk.group(1), mk.group(2)) if mk else (None, sig_)
+    src_loops = []          # (line index, LOOP_RE match, normalised header, ordinal)
     seen = {}
-    used = set()
-    newl = []
-    for l, m in blines:
+    for i_, (l, m) in enumerate(blines):
         mm = LOOP_RE.match(l)
         if mm and not l.lstrip().startswith('//'):
             sig_l = re.sub(r'\s+', ' ', mm.group(2).strip())
             k = seen.get(sig_l, 0)
             seen[sig_l] = k + 1
-            lp = None
+            src_loops.append((i_, mm, sig_l, k))
+    pairing, used = {}, set()
+    for i_, mm, sig_l, k in src_loops:
+        for idx, cand in enumerate(spec.loops):
+            if re.sub(r'\s+', ' ', cand['sig']) == sig_l and cand['ord'] == k:
+                pairing[i_] = idx
+                used.add(idx)
+    if len(pairing) < len(src_loops) and len(src_loops) == len(spec.loops):
+        fuzzy, fused = {}, set()
+        for i_, mm, sig_l, k in src_loops:
+            if i_ in pairing:
+                continue
             for idx, cand in enumerate(spec.loops):
-                if re.sub(r'\s+', ' ', cand['sig']) == sig_l and cand['ord'] == k:
-                    lp = cand
-                    used.add(idx)
+                if idx not in used and idx not in fused and loop_kind(re.sub(r'\s+', ' ', cand['sig'])) == loop_kind(sig_l):
+                    fuzzy[i_] = idx
+                    fused.add(idx)
+                    break
+        # accepted only if it is a complete one-to-one pairing (per kind: in order of appearance)
+        allp = dict(pairing); allp.update(fuzzy)
+        if len(allp) == len(src_loops) and len(set(allp.values())) == len(spec.loops):
+            for i_, idx in fuzzy.items():
+                NOTICES.append('%s: loop header %r changed in the source (sidecar has %r #%d); annotation attached by kind and position' % (
+                    fnm, [x[2] for x in src_loops if x[0] == i_][0], spec.loops[idx]['sig'], spec.loops[idx]['ord']))
+            pairing, used = allp, used | fused
+    newl = []
+    src_at = dict((i_, (mm, sig_l, k)) for i_, mm, sig_l, k in src_loops)
+    for i_, (l, m) in enumerate(blines):
+        if i_ in src_at:
+            mm, sig_l, k = src_at[i_]
+            lp = spec.loops[pairing[i_]] if i_ in pairing else None
+            if lp is not None:
+                # obligation names stay those of the sidecar entry, whatever the header's current text is
+                sig_l, k = re.sub(r'\s+', ' ', lp['sig']), lp['ord']
             if lp is None:
                 warnings.append('%s: loop %r #%d has no sidecar entry' % (fnm, sig_l, k))
                 newl.append((l, m))
@@ -588,6 +626,7 @@ def assemble(out_path, only=None):
     sse = src.get('simd/sse42.rs')
     avx = src.get('simd/avx2.rs')
     rt = src.get('simd/runtime.rs')
+    neon = src.get('simd/neon.rs')
     simd_mod = src.get('simd/mod.rs')
     out = Out()
     A = out.add
@@ -626,7 +665,7 @@ def assemble(out_path, only=None):
     for sp in specs:
         if sp.module is None:
             sp.module = {'lib.rs': 'crate', 'simd/swar.rs': 'simd::swar', 'simd/sse42.rs': 'simd::sse42',
-                         'simd/avx2.rs': 'simd::avx2', 'simd/runtime.rs': 'simd::runtime', 'simd/mod.rs': 'simd::' + (sp.scope or '')}[sp.source]
+                         'simd/avx2.rs': 'simd::avx2', 'simd/neon.rs': 'simd::neon', 'simd/runtime.rs': 'simd::runtime', 'simd/mod.rs': 'simd::' + (sp.scope or '')}[sp.source]
             if sp.source == 'simd/mod.rs':
                 sp.module = 'simd::' + re.search(r'mod (\w+)', sp.scope).group(1)
 
@@ -659,6 +698,27 @@ def assemble(out_path, only=None):
         out.extend(indent(fns_in('simd::' + modname), 4))
         A('    } // verus!')
         A('  }')
+    # NEON: this host has no aarch64 target, so `core::arch::aarch64` is replaced by the emulation module (rule N1); the
+    # block functions are external real text (Kani leaves over all 2^128 blocks), the three scanner loops are verified
+    A('  pub mod neon {')
+    A('    use vstd::prelude::*;')
+    A('    use crate::*;')
+    A('    #[path="%s/kani/neon_emu.rs"] pub mod neon_emu;' % VERIF)
+    if neon.count('use core::arch::aarch64::*;') != 1:
+        raise AnchorLost('simd/neon.rs: import of core::arch::aarch64 not found exactly once (rule N1)')
+    A('    use self::neon_emu::*;   // N1: stands for `use core::arch::aarch64::*;`')
+    ne_ext = dict(fn='external', kind='external', name='neon-leaves', tags=[])
+    A('    // ---- external (Kani leaves), real text')
+    A(strip_doc_comments(get_fn(neon, 'bit_set')), ne_ext)
+    A(strip_doc_comments(get_fn(neon, 'build_bitmap')), ne_ext)
+    A(get_item(neon, r'^const BITMAPS', 'semi'), ne_ext)
+    for f in ('match_header_name_char_16_neon', 'match_url_char_16_neon', 'match_header_value_char_16_neon', 'offsetz', 'offsetnz'):
+        A(strip_doc_comments(get_fn(neon, f)), ne_ext)
+    A('    verus! {')
+    out.extend(indent(read_spec('neon_leaves.rs'), 4))
+    out.extend(indent(fns_in('simd::neon'), 4))
+    A('    } // verus!')
+    A('  }')
     A('  pub mod runtime {')
     A('    use vstd::prelude::*;')
     A('    use crate::*;')
@@ -742,7 +802,7 @@ def assemble(out_path, only=None):
             A('} // verus!')
     A('fn main() {}')
     open(out_path, 'w').write(out.text())
-    json.dump(dict(regions=out.linemap(), warnings=warnings, rewrites=REWRITE_LOG,
+    json.dump(dict(regions=out.linemap(), warnings=warnings, notices=NOTICES, rewrites=REWRITE_LOG,
                    functions=[dict(key=sp.key, name=sp.name, source=sp.source, scope=sp.scope, mode=sp.mode, tags=sp.tags,
                                    trusted=sp.trusted, demoted=bool(sp.extra.get('demoted'))) for sp in specs if sp.key in fn_outs]),
               open(re.sub(r'\.rs$', '', out_path) + '.map.json', 'w'), indent=0)
